@@ -807,9 +807,8 @@ func genSign(r *Runner, prop string) {
 					if i >= j || !applies(a, f, local) || !applies(b, f, local) {
 						continue
 					}
-					if quick && rng.Intn(6) != 0 {
-						continue
-					}
+					// every pair, in every tier: a change that needs two particular deviations together must not depend on a sample
+					_ = quick
 					s := base(f, local, "ec256-0")
 					s.label = "pair"
 					a.fn(&s)
